@@ -44,7 +44,9 @@ def run(chk):
         m["private"] = False
         decl, _ = rulegen.text_string_decl(r, "$a", base, m)
         hexs = "$h = { %s }" % " ".join("%02X" % c for c in base[:4])
-        cond = r.choice(["$a", "#a > 1", "$a at %d" % r.below(8), "$a and filesize > 4", "any of them", "$a or $h"])
+        cond = r.choice(["$a", "#a > 1", "$a at %d" % r.below(8), "$a and filesize > 4", "any of them", "$a or $h",
+                         # conditions that hold without any string match (the rule must be evaluated although none of its strings hit)
+                         "not $a", "#a == 0", "filesize > 0 or $a", "none of them", "uint8(0) >= 0 or $a"])
         target = "rule target { strings: %s %s condition: %s or (false and $h) }\n" % (decl, hexs, cond)
         atomless = r.chance(1, 3)
         if atomless:
@@ -102,6 +104,9 @@ def run(chk):
         cut = r.choice(nl[:-1]) if len(nl) > 1 else len(toks)
         files = ["file part1.yar " + hx(toks[:cut].encode()), "file part2.yar " + hx(toks[cut:].encode())]
         cases.append(("D%d" % i, files + ["newcompiler", "add " + hx(b'include "part1.yar"\ninclude "part2.yar"\n'), "getrules", "scanner 0"] + scans))
+        # G: many unrelated rules before the target (per-rule bitmaps longer than one word), some with conditions that need no string
+        filler = "".join("rule f%d { condition: %s }\n" % (k, r.choice(["false", "true", "filesize < 0"])) for k in range(r.choice([63, 64, 65, 70, 130])))
+        cases.append(("G%d" % i, ["newcompiler", "add " + hx((imp + filler + "".join(others) + target).encode()), "getrules", "scanner 0"] + scans))
         # E/F: global rules constrain the rules of their own namespace only, however the namespace's text is handed over:
         # namespace nsB = a global gate rule + target, in one add call (E) or in two add calls with another namespace in between
         # and before it (F); the gate is false on some of the buffers
@@ -122,7 +127,7 @@ def run(chk):
         target, others, bufs, imp = meta[i]
         res = {}
         bad = False
-        for v in "ABCD":
+        for v in "ABCDG":
             lines = out.get("%s%d" % (v, i), [])
             sc = [l for l in lines if l.startswith("scan msgs=")]
             if len(sc) != len(bufs) or any(l.startswith("crash") for l in lines):
@@ -133,10 +138,10 @@ def run(chk):
             res[v] = [rule_result(l, "target") for l in sc]
         if bad:
             continue
-        for v in "BCD":
+        for v in "BCDG":
             for bi in range(len(bufs)):
                 if res[v][bi] != res["A"][bi]:
-                    chk.violation("company:" + {"B": "appended", "C": "permuted+namespaces+split", "D": "includes"}[v],
+                    chk.violation("company:" + {"B": "appended", "C": "permuted+namespaces+split", "D": "includes", "G": "after-many-rules"}[v],
                                   "rule 'target' alone: %s ; in company (%s): %s" % (res["A"][bi], v, res[v][bi]),
                                   {"target": target, "others": others, "import": imp, "buffer_hex": hx(bufs[bi]), "variant": v,
                                    "alone": res["A"][bi], "company": res[v][bi]})
